@@ -717,6 +717,8 @@ pub fn run_client(cfg: &ClientCfg, ops: &[COp]) -> ClientRun {
             total_polls: sim.exec.total_polls.get(),
             excluded_known: sim.excluded_known.get(),
         };
+        let mut run = run;
+        run.recs = hist.snapshot();
         sim.finish();
         run
     }));
@@ -724,6 +726,5 @@ pub fn run_client(cfg: &ClientCfg, ops: &[COp]) -> ClientRun {
     tarpc::verif::set_yield_hook(None);
     clock::disable();
     let mut out = out;
-    out.recs = hist.snapshot();
     out
 }
